@@ -671,9 +671,16 @@ package fsutil
 // and is recorded, every later one names the recorded first path and leaves the
 // record alone
 //@ pred specLinked(fi os.FileInfo, seenFiles map[uint64]string) bool = seenFiles != nil && asptr(fi.Sys(), syscall.Stat_t).Nlink > 1 && haskey(seenFiles, asptr(fi.Sys(), syscall.Stat_t).Ino)
+// the device an lstat'ed path lives on (uninterpreted; fi is the lstat result of path)
+//@ pred specDevOfPath(p string) uint64
+// KNOWN FINDING F19 (not repaired): "files sharing an inode" means the same (device, inode); the
+// map is keyed by the inode number alone, so with a mount point inside the tree a file is
+// reported as a link to an unrelated file of another file system that happens to have the same
+// inode number. The statement-derived obligation is later_member_same_device.
 //@ func setUnixOpt
 //@   property C09 C11 C17 C02
 //@   requires stat != nil && fi != nil && isptr(fi.Sys(), syscall.Stat_t) && asptr(fi.Sys(), syscall.Stat_t) != nil
+//@   ensures later_member_same_device: !fi.IsDir() && old(specLinked(fi, seenFiles)) && specDevOfPath(path) == uint64(asptr(fi.Sys(), syscall.Stat_t).Dev) ==> specDevOfPath(stat.Linkname) == uint64(asptr(fi.Sys(), syscall.Stat_t).Dev)
 //@   modifies *stat, seenFiles[*]
 //@   ensures owner: stat.Uid == asptr(fi.Sys(), syscall.Stat_t).Uid && stat.Gid == asptr(fi.Sys(), syscall.Stat_t).Gid
 //@   ensures untouched: stat.Path == old(stat.Path) && stat.Mode == old(stat.Mode) && stat.ModTime == old(stat.ModTime)
